@@ -20,6 +20,7 @@ import (
 	"errors"
 	"fmt"
 	"os"
+	"regexp"
 	"strconv"
 	"strings"
 	"time"
@@ -59,6 +60,25 @@ func exec(e *lp.Exec) {
 			}
 			if s.MaxBody > 0 && w.R.MaxHeld > s.MaxBody {
 				e.Oracle("c08-body", "held=%d max=%d", w.R.MaxHeld, s.MaxBody)
+			}
+			// direct oracle C08: every line end the parser accepted is a full CR LF (byte-at-a-time run gives the
+			// exact extent of every completed message)
+			if len(whole) <= 4000 {
+				b := hx.NewSess(s.Client, s.MaxBody, s.Limit)
+				for i := range whole {
+					if r := b.Feed(whole[i : i+1]); r.Errc != 0 {
+						break
+					}
+				}
+				prev := 0
+				for k, end := range b.R.DoneAt {
+					if k < len(b.R.Seen) && end <= len(whole) && prev <= end {
+						if why := lineEnds(whole[prev:end], b.R.Seen[k]); why != "" {
+							e.Oracle("c08-line-endings", "%s in accepted message %q", why, trunc(string(whole[prev:end]), 200))
+						}
+					}
+					prev = end
+				}
 			}
 		}
 		if s.MaxBody > 0 && s.R.MaxHeld > s.MaxBody {
@@ -164,6 +184,47 @@ func exec(e *lp.Exec) {
 		}
 	}
 	finish()
+}
+
+// lineEnds checks the line terminators of a message the parser accepted as complete: the header section ends with
+// CR LF CR LF, no header line contains a bare CR or LF, and a message without a Content-Length body ends in CR LF CR LF.
+var blankLine = regexp.MustCompile("\r\n *\r\n")
+var chunkedEnd = regexp.MustCompile("\r\n[^\r]*\r\n$")
+
+func lineEnds(msg []byte, seen hx.Seen) string {
+	ms := string(msg)
+	// the blank line: CR LF, possibly preceded by spaces (nbhttp skips spaces where a header line may start)
+	loc := blankLine.FindStringIndex(ms)
+	if loc == nil {
+		return "no CR LF CR LF after the header section"
+	}
+	he, hl := loc[0], loc[1]-loc[0]
+	lines := strings.Split(ms[:he], "\r\n")
+	for _, l := range lines[1:] {
+		if strings.ContainsAny(l, "\r\n") {
+			return "bare CR or LF inside a header line"
+		}
+	}
+	chunked := len(seen.Header["Transfer-Encoding"]) > 0
+	switch {
+	case chunked:
+		// the final CR LF follows a CR LF; nbhttp skips non-token bytes where a trailer line may start
+		if !chunkedEnd.MatchString(ms) {
+			return "chunked message does not end with CR LF CR LF"
+		}
+	case seen.CL <= 0:
+		if len(ms) != he+hl {
+			return "message without body does not end at the blank line"
+		}
+	}
+	return ""
+}
+
+func trunc(s string, n int) string {
+	if len(s) > n {
+		return s[:n] + "..."
+	}
+	return s
 }
 
 // mergeBodies canonicalises an event stream for the whole-vs-segmented oracle: consecutive body
